@@ -38,7 +38,7 @@ REAL = ['pyasn1.codec.{ber,cer,der,native}.{encoder,decoder} module-level single
 STUB = ['task bodies and their consumer loops', 'SimFile byte sources', 'baton-passing scheduler deciding every thread switch',
         'fork-based isolation for the reference outcomes']
 
-TASK_KINDS = ['encode', 'decode', 'decode', 'stream', 'stream', 'print', 'native']
+TASK_KINDS = ['encode', 'decode', 'decode', 'stream', 'stream', 'print', 'native']    # plus 'deep', added separately
 
 
 def _codecs_for(desc):
@@ -118,7 +118,7 @@ def _gen_neighbours(r, w):
 
 
 def gen_plan(r, index, tier):
-    w, cfg = common.gen_stream_workload(r, max_values=3, small=True, force_codec='ber', allow_f2=False,
+    w, cfg = common.gen_stream_workload(r, max_values=3, small=True, force_codec='ber', allow_f2=False, variants=False,
                                         constructed_default=r.random() < 0.4)
     desc = w['desc']
     nv = len(w['values'])
@@ -152,6 +152,16 @@ def gen_plan(r, index, tier):
         else:
             t['v'] = r.randrange(nv)
         tasks.append(t)
+    # resource-limit style state (depth counters, budgets) must be per call: now and then several deeply
+    # nested schemaless elements are decoded side by side, each parked in the middle by its arrival plan
+    if r.random() < 0.12:
+        for _ in range(r.choice([1, 2, 2, 3])):
+            depth = r.choice([20, 45, 70, 95])
+            indef = r.random() < 0.5
+            total = len(deep_bytes(depth, indef))
+            cut = r.choice([total // 2, total // 2 + 1, 2 * depth, total - 3])
+            steps = [['deliver', 0, max(1, min(total - 1, cut))], ['poll', 0], ['poll', 0], ['drain']]
+            tasks.append({'t': 'deep', 'codec': 'ber', 'depth': depth, 'indef': indef, 'steps': steps})
     # calls on colliding neighbour types take part in the same history / interleaving
     for k, nb in enumerate(neighbours):
         for _ in range(r.choice([1, 1, 2])):
@@ -303,11 +313,18 @@ class StreamTask(object):
     def __init__(self, ti, task, ctx, encs, plan, trace):
         self.ti, self.task, self.ctx, self.plan, self.trace = ti, task, ctx, plan, trace
         enc, dec, opts = U.codec(task['codec'])
-        parts = [encs.get(_ekey(task, v)) for v in task['vs']]
-        self.ok = all(x is not None for x in parts)
-        self.content = b''.join(bytes.fromhex(x) for x in parts) if self.ok else b''
+        if task['t'] == 'deep':
+            # a deeply nested schemaless element: many decoder frames are parked while other tasks run
+            self.ok = True
+            self.content = deep_bytes(task['depth'], task['indef'])
+            spec, kw = None, {}
+        else:
+            parts = [encs.get(_ekey(task, v)) for v in task['vs']]
+            self.ok = all(x is not None for x in parts)
+            self.content = b''.join(bytes.fromhex(x) for x in parts) if self.ok else b''
+            spec, kw = ctx.schema, _dec_kw(plan, task)
         self.st = streams.SimFile(self.content, ti, trace)
-        self.cons = W.Consumer(dec, self.st, ctx.schema, _dec_kw(plan, task), cid=ti, trace=trace)
+        self.cons = W.Consumer(dec, self.st, spec, kw, cid=ti, trace=trace)
         self.pending = [list(s) for s in task['steps']]
         self.kinds = []
         self.objs = []
@@ -321,8 +338,11 @@ class StreamTask(object):
         kind, payload, starved = self.cons.poll()
         self.kinds.append(kind)
         if kind == W.OBJ:
-            self.objs.append(U.jsonable(U.absval(payload)))
-            self.result_objs.append(payload)
+            if self.task['t'] == 'deep':
+                self.objs.append(_deep_summary(payload))     # nesting depth and leaf; not kept for the aliasing probe
+            else:
+                self.objs.append(U.jsonable(U.absval(payload)))
+                self.result_objs.append(payload)
         elif kind == W.STOP:
             self._finish('STOP')
         elif kind == W.ERR:
@@ -356,7 +376,7 @@ class StreamTask(object):
             self.st.deliver_all()
             self.st.disarm()
             self.st.close_stream()
-            self.drain_left = len(self.task['vs']) + 3
+            self.drain_left = len(self.task.get('vs', [0])) + 3
         else:
             W.apply_step(s, self.st)
         return not self.done
@@ -367,8 +387,29 @@ class StreamTask(object):
         return self.outcome
 
 
+def _deep_summary(obj):
+    n = 0
+    while isinstance(obj, (U.p.univ.Sequence, U.p.univ.SequenceOf)) and n < 1000:
+        if len(obj) != 1:
+            return ['deep', n, 'len=%d' % len(obj)]
+        obj = obj.getComponentByPosition(0)
+        n += 1
+    return ['deep', n, repr(obj)[:60]]
+
+
+def deep_bytes(depth, indef):
+    """depth nested SEQUENCEs around one INTEGER, written by the independent TLV writer."""
+    b = tlv.tlv(0, False, 2, b'\x05')
+    for i in range(depth):
+        if indef and i % 2 == 0:
+            b = b'\x30\x80' + b + b'\x00\x00'
+        else:
+            b = tlv.tlv(0, True, 16, b)
+    return b
+
+
 def make_task(ti, task, ctx, encs, plan, trace):
-    if task['t'] == 'stream':
+    if task['t'] in ('stream', 'deep'):
         return StreamTask(ti, task, ctx, encs, plan, trace)
     return OneShot(ti, task, ctx, encs, plan, trace)
 
